@@ -15,6 +15,7 @@ round trip counter-example (finding F16), and the partial round-trip theorem.
 import AbtemVerif.Model.FftCrop
 import AbtemVerif.Lib.WaveOptics
 import AbtemVerif.Lib.SmallDFT
+import AbtemVerif.Lib.DFT2
 import AbtemVerif.Gen.FftCropR
 import AbtemVerif.Gen.FftShiftR
 import Mathlib.Data.List.Range
@@ -399,6 +400,136 @@ theorem up_then_down_id_2d {s₁ s₂ n₁ n₂ : ℕ} (h₁ : s₁ ≤ n₁) (h
       (up Q₁ Q₂ (Prod.map (embedFin s₁ n₁ h₁) (embedFin s₂ n₂ h₂)) c x) = x :=
   up_then_down_id Q₁ Q₂ _ ((embedFin_injective s₁ n₁ h₁).prodMap (embedFin_injective s₂ n₂ h₂)) c c' hc x
 
+/-- non-vacuity of the 2-D statement: 2×2 → 4×4 → 2×2 with the separable products of the explicit 2- and 4-point DFTs -/
+example (x : Fin 2 × Fin 2 → ℂ) :
+    down (prodPair dft2 dft2) (prodPair dft4 dft4) (Prod.map (embedFin 2 4 (by norm_num)) (embedFin 2 4 (by norm_num))) 1
+      (up (prodPair dft2 dft2) (prodPair dft4 dft4) (Prod.map (embedFin 2 4 (by norm_num)) (embedFin 2 4 (by norm_num))) 1 x) = x :=
+  up_then_down_id_2d _ _ _ _ 1 1 (by norm_num) x
+
+end Operators
+
+/-! ### bridge: the list-level masked copy of `fft_crop` IS `pad` / `crop` along the per-axis embedding -/
+
+section Bridge
+
+lemma getD_ofFn' {n : Nat} (Y : Fin n → ℂ) (k : Nat) (hk : k < n) : (List.ofFn Y).getD k 0 = Y ⟨k, hk⟩ := by
+  simp [List.getD_eq_getElem?_getD, hk]
+
+lemma find_pairs_up (s n j : Nat) :
+    ((List.range s).map fun i => (i, embed s n i)).find? (fun p => p.2 == j)
+      = ((List.range s).find? (fun i => embed s n i == j)).map fun i => (i, embed s n i) := by
+  rw [List.find?_map]; rfl
+
+/-- Padding branch of the model of `fft_crop` (`Model/FftCrop.lean crop1d`, built on the generated mask bounds): output
+position `j` holds input coefficient `i` iff `embed s n i = j`, zeros elsewhere. -/
+theorem crop1d_up_spec (s n : Nat) (h1 : 1 ≤ s) (h : s < n) (x : List ℂ) (hx : x.length = s) :
+    crop1d (0 : ℂ) x n = .ok ((List.range n).map fun j =>
+      match (List.range s).find? (fun i => embed s n i == j) with
+      | some i => x.getD i 0
+      | none => 0) := by
+  unfold crop1d
+  rw [hx, cropPairs_up s n h1 h]
+  simp only [bind, Except.bind, pure, Except.pure]
+  congr 1
+  apply List.map_congr_left
+  intro j _
+  rw [find_pairs_up]
+  cases (List.range s).find? (fun i => embed s n i == j) <;> rfl
+
+/-- Cropping branch: output coefficient `i` is input coefficient `embed s n i`. -/
+theorem crop1d_down_spec (s n : Nat) (h1 : 1 ≤ s) (h : s ≤ n) (y : List ℂ) (hy : y.length = n) :
+    crop1d (0 : ℂ) y s = .ok ((List.range s).map fun i => y.getD (embed s n i) 0) := by
+  unfold crop1d
+  rw [hy, cropPairs_down n s h1 h]
+  simp only [bind, Except.bind, pure, Except.pure]
+  congr 1
+  apply List.map_congr_left
+  intro i hi
+  have hi' : i < s := List.mem_range.mp hi
+  have : ((List.range s).map fun i => (embed s n i, i)).find? (fun p => p.2 == i) = some (embed s n i, i) := by
+    rw [List.find?_map]
+    have : (List.range s).find? ((fun p : Nat × Nat => p.2 == i) ∘ fun i => (embed s n i, i)) = some i := by
+      have hf : ((fun p : Nat × Nat => p.2 == i) ∘ fun i => (embed s n i, i)) = fun k => k == i := rfl
+      rw [hf]
+      rw [List.find?_eq_some_iff_append]
+      refine ⟨by simp, List.range i, List.range' (i + 1) (s - (i + 1)), ?_, ?_⟩
+      · rw [List.range_eq_range', List.range_eq_range']
+        have := List.range'_append_1 (s := 0) (m := i) (n := s - i)
+        rw [show 0 + i = i by omega, show i + (s - i) = s by omega] at this
+        rw [← this]
+        congr 1
+        have h2 := List.range'_append_1 (s := i) (m := 1) (n := s - (i + 1))
+        rw [show 1 + (s - (i + 1)) = s - i by omega] at h2
+        rw [← h2]; rfl
+      · intro a ha
+        have := List.mem_range.mp ha
+        simp; omega
+    rw [this]; rfl
+  rw [this]
+
+/-- Function-level bridge for cropping: the model's list output is `crop (embedFin …)` of the input coefficients. -/
+theorem crop1d_down_eq_crop (s n : Nat) (h1 : 1 ≤ s) (h : s ≤ n) (Y : Fin n → ℂ) :
+    crop1d (0 : ℂ) (List.ofFn Y) s = .ok (List.ofFn (crop (embedFin s n h) Y)) := by
+  rw [crop1d_down_spec s n h1 h _ (by simp)]
+  congr 1
+  apply List.ext_getElem (by simp)
+  intro i hi1 hi2
+  simp only [List.length_map, List.length_range] at hi1
+  simp only [List.getElem_map, List.getElem_range, List.getElem_ofFn, crop, embedFin]
+  have hlt : embed s n i < n := embed_lt s n i h hi1
+  rw [getD_ofFn' Y _ hlt]
+
+/-- Function-level bridge for padding: the model's list output is `pad (embedFin …)` of the input coefficients. -/
+theorem crop1d_up_eq_pad (s n : Nat) (h1 : 1 ≤ s) (h : s < n) (X : Fin s → ℂ) :
+    crop1d (0 : ℂ) (List.ofFn X) n = .ok (List.ofFn (pad (embedFin s n h.le) X)) := by
+  rw [crop1d_up_spec s n h1 h _ (by simp)]
+  congr 1
+  apply List.ext_getElem (by simp)
+  intro j hj1 hj2
+  simp only [List.length_map, List.length_range] at hj1
+  simp only [List.getElem_map, List.getElem_range, List.getElem_ofFn]
+  have he := embedFin_injective s n h.le
+  by_cases hex : ∃ i : Fin s, embedFin s n h.le i = ⟨j, hj1⟩
+  · obtain ⟨i, hi⟩ := hex
+    rw [← hi, pad_apply _ he]
+    have hij : embed s n i = j := by simpa [embedFin] using congrArg Fin.val hi
+    have hfind : (List.range s).find? (fun i' => embed s n i' == j) = some (i : Nat) := by
+      rw [List.find?_eq_some_iff_append]
+      refine ⟨by simp [hij], List.range i, List.range' (i + 1) (s - (i + 1)), ?_, ?_⟩
+      · have hi2 := i.2
+        rw [List.range_eq_range', List.range_eq_range']
+        have := List.range'_append_1 (s := 0) (m := (i : Nat)) (n := s - i)
+        rw [show 0 + (i : Nat) = i by omega, show (i : Nat) + (s - i) = s by omega] at this
+        rw [← this]
+        congr 1
+        have h2 := List.range'_append_1 (s := (i : Nat)) (m := 1) (n := s - (i + 1))
+        rw [show 1 + (s - ((i : Nat) + 1)) = s - i by omega] at h2
+        rw [← h2]; rfl
+      · intro a ha
+        have ha' := List.mem_range.mp ha
+        simp only [Bool.not_eq_true', beq_eq_false_iff_ne, ne_eq]
+        intro hcontra
+        have := embed_injective s n a i (by rw [hcontra, hij])
+        omega
+    rw [hfind]
+    exact getD_ofFn' X i i.2
+  · rw [pad_apply_off _ _ _ hex]
+    have hnone : (List.range s).find? (fun i' => embed s n i' == j) = none := by
+      rw [List.find?_eq_none]
+      intro a ha
+      have ha' := List.mem_range.mp ha
+      simp only [beq_iff_eq]
+      intro hc
+      exact hex ⟨⟨a, ha'⟩, by simp [embedFin, hc]⟩
+    rw [hnone]
+
+end Bridge
+
+section Operators2
+open AbtemVerif.Gen.FftCropR
+variable {ι₁ ι₂ : Type*} [Fintype ι₁] [Fintype ι₂]
+variable (P₁ : FourierPair ι₁) (P₂ : FourierPair ι₂)
+
 /-! ### the `.real` branch (real input) -/
 
 /-- `array.real` -/
@@ -425,7 +556,7 @@ theorem up_then_down_id_real_partial (e : ι₁ → ι₂) (he : Function.Inject
   have : (c' : ℂ) * (c : ℂ) = 1 := by exact_mod_cast hc
   rw [this, one_smul]
 
-end Operators
+end Operators2
 
 /-! ## Part 3 — shifting -/
 
